@@ -15,6 +15,7 @@ import time
 REPO = os.environ.get("VERIF_REPO", "/repo")
 CACHE = os.environ.get("VERIF_CACHE", "/tmp/chibi-verif-cache")
 VERIF = os.path.dirname(os.path.dirname(os.path.abspath(__file__)))
+BUILD_TIMEOUT = int(os.environ.get("VERIF_BUILD_TIMEOUT", "420"))
 
 COMMON = "-g -fno-omit-frame-pointer -Wno-error"
 UBSAN_SUBSET = "-fsanitize=bounds,vla-bound,return,unreachable,null"
@@ -44,6 +45,8 @@ def tree_hash(repo=None):
     for root, dirs, files in os.walk(repo):
         dirs[:] = sorted(d for d in dirs if not (root == repo and d in ("_build", ".git")))
         for f in sorted(files):
+            if root == repo and f == ".git":
+                continue            # a worktree's .git is a file
             p = os.path.join(root, f)
             if os.path.islink(p):
                 h.update(b"L" + os.path.relpath(p, repo).encode() + b"\0" + os.readlink(p).encode())
@@ -127,7 +130,7 @@ def ensure(variant, repo=None, quiet=False):
     thash, nfiles = tree_hash(repo)
     src = os.path.join(CACHE, "src-" + thash)
     bdir = os.path.join(CACHE, "build-%s-%s" % (variant, thash))
-    lock = open(os.path.join(CACHE, "lock-" + variant), "w")
+    lock = open(os.path.join(CACHE, "lock-%s-%s" % (variant, thash)), "w")
     fcntl.flock(lock, fcntl.LOCK_EX)
     try:
         ok = os.path.join(bdir, ".verif-ok")
@@ -175,8 +178,20 @@ def ensure(variant, repo=None, quiet=False):
         env = dict(os.environ)
         if variant == "asan-rz":
             env["ASAN_OPTIONS"] = ASAN_OPTIONS
-        r = subprocess.run(["cmake", "--build", bdir, "--target", "chibi-scheme", "chibi-compiled-libs",
-                            "-j", str(os.cpu_count() or 4)], capture_output=True, text=True, env=env)
+        try:
+            r = subprocess.run(["cmake", "--build", bdir, "--target", "chibi-scheme", "chibi-compiled-libs",
+                                "-j", str(os.cpu_count() or 4)], capture_output=True, text=True, env=env,
+                               timeout=BUILD_TIMEOUT, start_new_session=True)
+        except subprocess.TimeoutExpired:
+            # the build runs the freshly built interpreter (chibi-ffi): a tree whose interpreter hangs ends here
+            for pid in subprocess.run(["pgrep", "-f", bdir], capture_output=True, text=True).stdout.split():
+                try:
+                    os.kill(int(pid), 9)
+                except (OSError, ValueError):
+                    pass
+            _rm(bdir)
+            raise HarnessError("build of variant %s did not finish within %d s (the tree's own interpreter is run "
+                               "during the build to generate stubs)" % (variant, BUILD_TIMEOUT))
         if r.returncode != 0:
             raise HarnessError("build failed (%s):\n%s" % (variant, (r.stdout + r.stderr)[-6000:]))
         open(ok, "w").write(thash)
